@@ -47,7 +47,8 @@ def tlc(module, cfg, workdir, workers=4, env=None, timeout=1800, coverage=False,
     """Run TLC on spec/<module>.tla with spec/<cfg>; returns (rc, stdout)."""
     meta = os.path.join(workdir, "tlc_%s_%d_%d" % (module, os.getpid(), int(time.time() * 1e6) % 10**9))
     os.makedirs(meta, exist_ok=True)
-    java_opts = "-Xss1g -Dtlc2.tool.queue.IStateQueue=StateDeque" if workers == 1 else "-Xss1g"
+    xss = os.environ.get("VERIF_XSS", "1g")      # (experiments only: how deep do the specifications recurse?)
+    java_opts = ("-Xss%s -Dtlc2.tool.queue.IStateQueue=StateDeque" % xss) if workers == 1 else "-Xss%s" % xss
     java_opts += " -Djava.io.tmpdir=" + meta      # TLC unpacks its standard modules into tmpdir; removed with meta
     cmd = ["java", "-XX:+UseParallelGC", "-Xmx" + heap, "-cp", TLA_JAR, "tlc2.TLC",
            "-workers", str(workers), "-metadir", meta, "-cleanup", "-noGenerateSpecTE"]
@@ -65,6 +66,9 @@ def tlc(module, cfg, workdir, workers=4, env=None, timeout=1800, coverage=False,
         shutil.rmtree(meta, ignore_errors=True)
     return rc, out, dt
 
+
+import threading
+RETRY_LOCK = threading.Lock()     # retried pieces run one at a time
 
 _STATES = re.compile(r"(\d+) states generated, (\d+) distinct states found")
 _COV = re.compile(r"^<(\w+) line \d+, col \d+ to line \d+, col \d+ of module (\w+)(?: \([^)]*\))?>: (\d+):(\d+)", re.M)
@@ -247,9 +251,23 @@ class Ctx:
             e = {"TRACE": path}
             if env:
                 e.update(env)
-            rc, out, dt = tlc(module, cfg, self.work, workers=1, env=e, timeout=timeout, heap="3g")
-            st = parse_states(out)
-            ok = rc == 0 and "Error:" not in out and (batch or (st and st[0] >= nlines))
+            # A JVM that cannot get memory for its heap or its (deep) stack while many others run fails with an
+            # error of its own (never with a verdict): such a piece is validated again, alone, before giving up.
+            JVM_TROUBLE = ("StackOverflowError", "OutOfMemoryError", "unable to create native thread",
+                           "Cannot allocate memory", "There is insufficient memory")
+            def attempt_once():
+                rc, out, dt = tlc(module, cfg, self.work, workers=1, env=e, timeout=timeout, heap="3g")
+                st = parse_states(out)
+                return rc, out, st, dt, rc == 0 and "Error:" not in out and (batch or (st and st[0] >= nlines))
+            rc, out, st, dt, ok = attempt_once()
+            for attempt in range(2):
+                if ok or not any(t in out for t in JVM_TROUBLE):
+                    break
+                log("[trace] %s: JVM resource error on %s, validating that piece again (retry %d, one at a time)"
+                    % (module, os.path.basename(path), attempt + 1))
+                with RETRY_LOCK:
+                    time.sleep(5 + 20 * attempt)
+                    rc, out, st, dt, ok = attempt_once()
             if not ok:
                 raise ToolError("trace validation %s on %s failed (rc=%s):\n%s" %
                                 (module, path, rc, "\n".join(out.splitlines()[-40:])))
@@ -504,6 +522,7 @@ def main(registry):
         rc = ctx.finish()
     except ToolError as x:
         log("TOOL ERROR: %s" % x)
-        shutil.rmtree(ctx.work, ignore_errors=True)
+        if not os.environ.get("VERIF_KEEP_WORK"):
+            shutil.rmtree(ctx.work, ignore_errors=True)
         sys.exit(2)
     sys.exit(rc)
